@@ -527,7 +527,13 @@ class Flow:
                         roles = set(self.env[f].get(name, ()))
                         for a in al.get(name, ()):
                             roles |= self.env[f].get(a, set())
-                        if not roles & ARRAY_ROLES and not self._is_subscripted(f, name):
+                        rhs_array = any(
+                            isinstance(x, ast.Subscript) and any(
+                                isinstance(q, ast.Slice) for q in
+                                (x.slice.elts if isinstance(x.slice, ast.Tuple) else [x.slice]))
+                            for x in ast.walk(st.value))
+                        if not roles & ARRAY_ROLES and not self._is_subscripted(f, name) \
+                                and not rhs_array:
                             continue
                     touch(name)
                 for call, callees, kind in self.calls.get(f, ()):
